@@ -14,7 +14,11 @@
 EXTENDS Integers, Sequences, FiniteSets
 
 Seg == {"..", ".", "", "a", "b", "root", "root-other"}
-Plain == {"a", "b", "root", "root-other"}
+\* further plain segments, used sparingly (at most one per name): "ROOT" = the root's name in another letter case (on a
+\* case-sensitive file system a different directory: a sibling), "bs2" = a name made of parent references written with
+\* backslashes (`..\..\bsx`: on this platform one ordinary file name, not a path)
+ExtraSeg == {"ROOT", "bs2"}
+Plain == {"a", "b", "root", "root-other"} \cup ExtraSeg
 
 Parent(p) == IF p = <<>> THEN <<>> ELSE SubSeq(p, 1, Len(p) - 1)
 
@@ -109,5 +113,6 @@ Class(roots, base, segs) ==
                                   ELSE IF ".." \in {segs[i] : i \in 1..Len(segs)} THEN "inside-via-dotdot" ELSE "inside")
        ELSE IF IsPrefix(p, r) THEN "ancestor"
        ELSE IF Len(p) >= Len(r) /\ SubSeq(p, 1, Len(r) - 1) = Parent(r) /\ p[Len(r)] = "root-other" THEN "sibling-prefix"
+       ELSE IF Len(p) >= Len(r) /\ SubSeq(p, 1, Len(r) - 1) = Parent(r) /\ p[Len(r)] = "ROOT" THEN "sibling-case"
        ELSE "outside"
 ====
